@@ -366,7 +366,12 @@ def check_record(ctx, case, record, protos):
                 if len(loose) > 1 or (len(loose) == 0 and False):
                     ctx.violate("interleaved-members-linked-by-core-overlap",
                                 dict(facts, groups=[[m.product for m in comp] for comp in comps],
-                                     promotion_shape=promotion_shape(c, wrap, length)), case)
+                                     # ... of this candidate, or of a chemical hybrid inside it (two hybrid groups of
+                                     # identical coordinates merged into one: its wider core span then draws
+                                     # protoclusters between the two groups in as interleaved)
+                                     promotion_shape=promotion_shape(c, wrap, length) or any(
+                                         promotion_shape(h, wrap, length) for h in hybrids
+                                         if {id(m) for m in h.protoclusters} <= {id(m) for m in members})), case)
         elif c.kind == K.NEIGHBOURING:
             comps = components(members, lambda a, b: ov(a.location, b.location))
             if len(comps) > 1:
